@@ -25,21 +25,21 @@ type LoopSpec struct {
 }
 
 type UnitSpec struct {
-	Kind     string // func closure type-contract extern model lemma
-	Key      string // "integerIter.MoveNext", "For#0.0", "next", "utf8.DecodeRuneInString"
-	Recv     string // header name bound to the receiver ("" if none)
-	Params   []string
-	Results  []string
-	Clauses  []*Clause
-	Loops    map[int]*LoopSpec
-	Flags    map[string]bool // trusted, abstracted, pure, reveal:<M>
-	Reveal   []string
+	Kind      string // func closure type-contract extern model lemma
+	Key       string // "integerIter.MoveNext", "For#0.0", "next", "utf8.DecodeRuneInString"
+	Recv      string // header name bound to the receiver ("" if none)
+	Params    []string
+	Results   []string
+	Clauses   []*Clause
+	Loops     map[int]*LoopSpec
+	Flags     map[string]bool // trusted, abstracted, pure, reveal:<M>
+	Reveal    []string
 	AssumeObl []string // obligation names (prefix) turned into listed assumptions, with the reason after ' because '
-	File     string
-	Line     int
-	ModelDef cx       // for model
-	ModelPT  []string // model param types (Go type text)
-	Props    []string // properties served (informational)
+	File      string
+	Line      int
+	ModelDef  cx       // for model
+	ModelPT   []string // model param types (Go type text)
+	Props     []string // properties served (informational)
 }
 
 func (u *UnitSpec) clauses(kind string) []*Clause {
